@@ -15,21 +15,26 @@
    createProcess after "fix: <!out> on a command that is not piped":
        case "out": p.Stderr = p.Stdout          (was: p.Next.Stdin)
 
-   Not modelled: the deprecated `?` pipe, named pipes other than out/err/null,
-   <test_*> <state_*> <env:*> <fid:*> <pid:*>, tee for tests.
+   Also modelled: the deprecated `?` pipe (compile: Stdout = Parent.Stderr, Stderr = Next.Stdin)
+   and user-named pipes created with `pipe name` as redirection targets (`<name>`, `<!name>`:
+   GlobalPipes.Get(name), the default: branch of both switches).
+   Not modelled: named pipes that do not exist, <test_*> <state_*> <env:*> <fid:*> <pid:*>,
+   `name:type` temporary pipes, tee for tests.
    No proofs in this file. *)
 From Murex Require Import Base.Outcome Base.Bytes.
 Local Open Scope N_scope.
 
-(* what follows a command in the block: `|` / `->`  or  `;` / newline / end of block *)
-Inductive link := Pipe | Semi.
+(* what follows a command in the block: `|` / `->`,  the stderr pipe ` ? `,  or  `;` / newline / end of block *)
+Inductive link := Pipe | QPipe | Semi.
 
 (* the named pipes in angle brackets that this property is about *)
 Inductive rname := R_out | R_err | R_null         (* <out> <err> <null>    : about stdout *)
-                 | R_bout | R_berr | R_bnull.     (* <!out> <!err> <!null> : about stderr *)
+                 | R_bout | R_berr | R_bnull      (* <!out> <!err> <!null> : about stderr *)
+                 | R_pipe (k : N)                 (* <name_k>  : stdout into the user-named pipe k *)
+                 | R_bpipe (k : N).               (* <!name_k> : stderr into the user-named pipe k *)
 
 Definition is_bang (r : rname) : bool :=
-  match r with R_bout | R_berr | R_bnull => true | _ => false end.
+  match r with R_bout | R_berr | R_bnull | R_bpipe _ => true | _ => false end.
 
 (* what a process does.  Emit: the harness command — copies its stdin (when it is
    a method) to its stdout, then writes o to stdout and e to stderr.
@@ -68,22 +73,22 @@ Inductive stream :=
 | SParentErr            (* the block's stderr  (Parent.Stderr) *)
 | SParentIn             (* the block's stdin   (Parent.Stdin): nobody reads what is written there *)
 | SStdin (i : nat)      (* stdin of process i of the block *)
+| SPipe (k : N)         (* the user-named pipe k (GlobalPipes) *)
 | SNull.                (* the null device *)
 
 (* compile: procs[i].Next is procs[i+1], or the parent for the last process *)
 Definition next_stdin (n i : nat) : stream :=
   if Nat.eqb (S i) n then SParentIn else SStdin (S i).
 
-(* p.Next.Stderr at the time createProcess(i) runs: the parent's stderr, or the
-   compile-time default of process i+1, which is Parent.Stderr as well *)
-Definition next_stderr (n i : nat) : stream := SParentErr.
-
 (* compile: default stdout / stderr *)
 Definition default_stdout (n i : nat) (l : link) : stream :=
-  match l with Pipe => next_stdin n i | Semi => SParentOut end.
-Definition default_stderr (n i : nat) (l : link) : stream := SParentErr.
+  match l with Pipe => next_stdin n i | QPipe => SParentErr | Semi => SParentOut end.
+Definition default_stderr (n i : nat) (l : link) : stream :=
+  match l with QPipe => next_stdin n i | _ => SParentErr end.
 
-(* createProcess: stderr first, then stdout *)
+(* createProcess: stderr first, then stdout.
+   `<err>`: p.Stdout = p.Parent.Stderr   (after "fix: <err> ... ? pipe"; was p.Next.Stderr, which is
+   the NEXT command's compile-time stderr: its own `?` pipe when it has one) *)
 Definition wire (n i : nat) (s : stage) : stream * stream :=
   let nm := parse_redirs (s_redirs s) in
   let stdout0 := default_stdout n i (s_link s) in
@@ -92,15 +97,24 @@ Definition wire (n i : nat) (s : stage) : stream * stream :=
                  | None => stderr0
                  | Some R_bout => stdout0          (* p.Stderr = p.Stdout *)
                  | Some R_bnull => SNull
+                 | Some (R_bpipe k) => SPipe k     (* GlobalPipes.Get *)
                  | Some _ => stderr0               (* <!err> *)
                  end in
   let stdout1 := match n_out nm with
                  | None => stdout0
-                 | Some R_err => next_stderr n i   (* p.Stdout = p.Next.Stderr *)
+                 | Some R_err => SParentErr        (* p.Stdout = p.Parent.Stderr *)
                  | Some R_null => SNull
+                 | Some (R_pipe k) => SPipe k      (* GlobalPipes.Get *)
                  | Some _ => stdout0               (* <out> *)
                  end in
   (stdout1, stderr1).
+
+(* the wiring before that fix, kept for the refutation lemma: nl = link of the next command *)
+Definition old_err_target (n i : nat) (nl : option link) : stream :=
+  match nl with
+  | Some QPipe => next_stdin n (S i)
+  | _ => SParentErr
+  end.
 
 (* ---------- running a block ---------- *)
 Definition files := list (N * bytes).
@@ -129,7 +143,8 @@ Record state := {
   st_pin : bytes;            (* written into the block's own stdin: lost *)
   st_null : bytes;           (* discarded by the null device *)
   st_ins : list bytes;       (* stdin buffer of every process of the block *)
-  st_fs : files
+  st_fs : files;
+  st_pipes : files           (* buffer of every user-named pipe, by number *)
 }.
 
 Fixpoint app_nth (l : list bytes) (i : nat) (d : bytes) : list bytes :=
@@ -139,21 +154,29 @@ Fixpoint app_nth (l : list bytes) (i : nat) (d : bytes) : list bytes :=
   | x :: l', S i' => x :: app_nth l' i' d
   end.
 
+Definition upd (o e p nl : bytes) (ins : list bytes) (fs ps : files) : state :=
+  {| st_out := o; st_err := e; st_pin := p; st_null := nl; st_ins := ins; st_fs := fs; st_pipes := ps |}.
+
+Definition pipe_get (ps : files) (k : N) : bytes :=
+  match file_get ps k with Some d => d | None => [] end.
+
 Definition write (s : stream) (d : bytes) (st : state) : state :=
+  let '(o, e, p, nl, ins, fs, ps) := (st_out st, st_err st, st_pin st, st_null st, st_ins st, st_fs st, st_pipes st) in
   match s with
-  | SParentOut => {| st_out := st_out st ++ d; st_err := st_err st; st_pin := st_pin st; st_null := st_null st; st_ins := st_ins st; st_fs := st_fs st |}
-  | SParentErr => {| st_out := st_out st; st_err := st_err st ++ d; st_pin := st_pin st; st_null := st_null st; st_ins := st_ins st; st_fs := st_fs st |}
-  | SParentIn => {| st_out := st_out st; st_err := st_err st; st_pin := st_pin st ++ d; st_null := st_null st; st_ins := st_ins st; st_fs := st_fs st |}
-  | SNull => {| st_out := st_out st; st_err := st_err st; st_pin := st_pin st; st_null := st_null st ++ d; st_ins := st_ins st; st_fs := st_fs st |}
-  | SStdin i => {| st_out := st_out st; st_err := st_err st; st_pin := st_pin st; st_null := st_null st; st_ins := app_nth (st_ins st) i d; st_fs := st_fs st |}
+  | SParentOut => upd (o ++ d) e p nl ins fs ps
+  | SParentErr => upd o (e ++ d) p nl ins fs ps
+  | SParentIn => upd o e (p ++ d) nl ins fs ps
+  | SNull => upd o e p (nl ++ d) ins fs ps
+  | SStdin i => upd o e p nl (app_nth ins i d) fs ps
+  | SPipe k => upd o e p nl ins fs (file_set ps k (pipe_get ps k ++ d))
   end.
 
 Definition set_fs (fs : files) (st : state) : state :=
-  {| st_out := st_out st; st_err := st_err st; st_pin := st_pin st; st_null := st_null st; st_ins := st_ins st; st_fs := fs |}.
+  upd (st_out st) (st_err st) (st_pin st) (st_null st) (st_ins st) fs (st_pipes st).
 
 (* process i is a method when the previous command is linked to it by a pipe *)
 Definition is_method (prev : option link) : bool :=
-  match prev with Some Pipe => true | _ => false end.
+  match prev with Some Pipe | Some QPipe => true | _ => false end.
 
 (* one process runs to completion: what it read, then its writes *)
 Definition run_stage (n i : nat) (prev : option link) (s : stage) (st : state) : state :=
@@ -172,7 +195,7 @@ Fixpoint run_from (n i : nat) (prev : option link) (l : list stage) (st : state)
   end.
 
 Definition init_state (n : nat) (fs : files) : state :=
-  {| st_out := []; st_err := []; st_pin := []; st_null := []; st_ins := repeat [] n; st_fs := fs |}.
+  upd [] [] [] [] (repeat [] n) fs [].
 
 (* compile refuses a block whose last command pipes into nothing (ErrPipingToNothing) *)
 Definition last_link (l : list stage) : link :=
@@ -180,7 +203,7 @@ Definition last_link (l : list stage) : link :=
 
 Definition run_block (l : list stage) (fs : files) : Outcome state :=
   match last_link l with
-  | Pipe => Err 1
+  | Pipe | QPipe => Err 1
   | Semi => Ok (run_from (length l) O None l (init_state (length l) fs))
   end.
 
